@@ -69,6 +69,7 @@ func zzC03Pipeline(n, nSteps int, full bool) {
 		case 2:
 			st.fatal = true
 			failing = true
+			st.emptyMessages = zz.Bool(nm + ".emptyMessage")
 		case 3:
 			st.err = true
 			failing = true
